@@ -8,6 +8,8 @@ import (
 	"encoding/json"
 	"fmt"
 	"net"
+	"os"
+	"os/exec"
 	"sync"
 	"sync/atomic"
 	"syscall"
@@ -32,6 +34,7 @@ const (
 	sigRetriesNegative = "breaker/retries-negative-after-reset"
 	sigH1ClientDropped = "breaker/http1-client-dropped-on-requests-overflow"
 	sigXRetryLeak      = "breaker/xprotocol-retry-stream-never-destroyed"
+	sigRetryTimeout    = "breaker/request-leak-global-timeout-during-retry-setup"
 )
 
 // ---------------------------------------------------------------- scenario data (JSON = canonical form)
@@ -53,6 +56,8 @@ type ReqPlan struct {
 	// per-request timeouts carried by the request itself (x-mosn-global-timeout / bolt timeout field, x-mosn-try-timeout)
 	TimeoutMs int `json:"to,omitempty"`
 	TryMs     int `json:"tt,omitempty"`
+
+	hold chan struct{} // the hold epoch the request was registered in (see addPlan)
 }
 
 // ConnPlan is one client connection. HTTP/1: requests are sent one after the other; bolt: multiplexed;
@@ -210,6 +215,15 @@ func (r *rig) release() {
 	r.holdMu.Unlock()
 }
 
+// addPlan registers what the upstreams do with a token. Its stalls park on the hold channel of the
+// epoch it was registered in: an attempt that MOSN sends after that epoch was released (a retry
+// whose client is long gone) does not park — a parked handler does not read, so it would keep a
+// connection MOSN already closed in the upstream's live set and falsify the harness' truth.
+func (r *rig) addPlan(p *ReqPlan) {
+	p.hold = r.curHold()
+	r.plans.Store(p.Tok, p)
+}
+
 func (r *rig) curHold() chan struct{} {
 	r.holdMu.Lock()
 	defer r.holdMu.Unlock()
@@ -247,10 +261,12 @@ func (r *rig) did(kind string) int {
 // script is the upstream side of HTTP/1 and bolt: the action of the i-th attempt of the request's plan.
 func (r *rig) script(req *mesh.Req) mesh.Action {
 	a := Attempt{Kind: "ok"}
+	var hold chan struct{}
+	cnt, _ := r.attempts.LoadOrStore(req.Token, new(int32))
+	i := int(atomic.AddInt32(cnt.(*int32), 1)) - 1
 	if v, ok := r.plans.Load(req.Token); ok {
 		p := v.(*ReqPlan)
-		cnt, _ := r.attempts.LoadOrStore(req.Token, new(int32))
-		i := int(atomic.AddInt32(cnt.(*int32), 1)) - 1
+		hold = p.hold
 		if i < len(p.Attempts) {
 			a = p.Attempts[i]
 		}
@@ -266,13 +282,13 @@ func (r *rig) script(req *mesh.Req) mesh.Action {
 	case "err":
 		act.Status = a.Status
 	case "stall": // never answers; the handler is parked on the hold channel so that it ends when the batch is released
-		act.Hold = r.curHold()
+		act.Hold = hold
 		act.Kind = "close"
 		if bolt {
 			act.Kind = "drop"
 		}
 	case "late": // answers only after the batch was released (long after every timeout)
-		act.Hold = r.curHold()
+		act.Hold = hold
 	case "reset":
 		act.Kind = "reset"
 	case "close":
@@ -592,11 +608,19 @@ func (r *rig) settle(phase string, want expectFn, desc func() string) bool {
 	}
 	r.checkNegatives(desc)
 	if !ok {
-		if r.isXRetryLeak(sig, o) {
-			sig = sigXRetryLeak
+		if rc := r.requestLeakCause(sig, o); rc != "" {
+			sig = rc
 			if ev.IsKnown(r.part, sig) { // listed finding: drop the request counters, judge the rest of the case
 				atomic.StoreInt32(&r.reqLeakKnown, 1)
 				return r.settle(phase, want, desc)
+			}
+		}
+		if os.Getenv("C10_DEBUG") != "" {
+			for _, u := range r.ups {
+				if u != nil {
+					out, _ := exec.Command("sh", "-c", "ss -tn | grep "+u.Addr).CombinedOutput()
+					os.Stderr.WriteString("DBG SS " + u.Addr + "\n" + string(out))
+				}
 			}
 		}
 		ev.Fail(r.t, r.part, sig, "%s: %s\nstate (unchanged for %v): %s\ncase: %s", phase, why, stuckWindow, o, desc())
@@ -604,20 +628,24 @@ func (r *rig) settle(phase string, want expectFn, desc func() string) bool {
 	return true
 }
 
-// isXRetryLeak recognises the footprint of one root cause: on the xprotocol pools every admitted retry
-// attempt leaves requests / request_active one too high (the retry reuses the context's client stream
-// object whose state is already 'destroyed', so OnDestroyStream never fires for it). The leak is
-// consistent over resource, cluster gauge and host gauges and never larger than the number of retries.
-func (r *rig) isXRetryLeak(sig string, o obs) bool {
+// requestLeakCause recognises the footprints of two listed root causes behind a request counter that
+// stays above zero. Both leak consistently (requests resource = cluster request_active = sum of the host
+// request_active gauges), never more than one unit per retry:
+//   - xprotocol pools: every admitted retry attempt leaks (the retry reuses the context's client stream
+//     object whose state is already 'destroyed', so OnDestroyStream never fires for it);
+//   - any protocol: the global timeout fires while doRetry() is setting up the next attempt; the timer's
+//     resetStream() finds no sender yet, the attempt's stream is created anyway and cleanStream skips it
+//     because the 504 reply already marked the upstream side done. Needs a retry and a timeout in the case.
+//
+// Anything else keeps the generic signature of the counter.
+func (r *rig) requestLeakCause(sig string, o obs) string {
 	switch sig {
 	case "breaker/requests-not-zero-at-idle", "gauge/cluster-request-active-not-zero", "gauge/host-request-active-not-zero":
 	default:
-		return false
+		return ""
 	}
-	if r.su.Proto != "bolt" && r.su.Proto != "boltpp" {
-		return false
-	}
-	retries := r.info.Stats().UpstreamRequestRetry.Count()
+	st := r.info.Stats()
+	retries, timeouts := st.UpstreamRequestRetry.Count(), st.UpstreamRequestTimeout.Count()
 	var hostSum int64
 	for i := range r.hosts {
 		hostSum += o.HostReqAct[i]
@@ -627,88 +655,14 @@ func (r *rig) isXRetryLeak(sig string, o obs) bool {
 	if r.su.Thr[thrReq] == 0 {
 		wantReq = 0
 	}
-	return leak > 0 && leak <= retries && hostSum == leak && o.Req == wantReq
-}
-
-// ---------------------------------------------------------------- clients
-
-type outcome struct {
-	Status int  // HTTP status / bolt response status; -1 none
-	Got    bool // a response arrived
-	Closed bool // connection ended without one
-}
-
-// h1Once sends one request on c and reads the response.
-func h1Once(c *mesh.H1Client, rp *ReqPlan, wait time.Duration) outcome {
-	var body []byte
-	method := "GET"
-	if rp.BodyLen > 0 {
-		method = "POST"
-		body = make([]byte, rp.BodyLen)
-		for i := range body {
-			body[i] = 'a' + byte(i%26)
-		}
+	if !(leak > 0 && leak <= retries && hostSum == leak && o.Req == wantReq) {
+		return ""
 	}
-	hdr := [][2]string{{mesh.TokenHeader, rp.Tok}}
-	if rp.TimeoutMs > 0 {
-		hdr = append(hdr, [2]string{types.HeaderGlobalTimeout, fmt.Sprint(rp.TimeoutMs)})
+	if r.su.Proto == "bolt" || r.su.Proto == "boltpp" {
+		return sigXRetryLeak
 	}
-	if rp.TryMs > 0 {
-		hdr = append(hdr, [2]string{types.HeaderTryTimeout, fmt.Sprint(rp.TryMs)})
+	if leak <= timeouts {
+		return sigRetryTimeout
 	}
-	if err := c.Send(mesh.RawRequest(method, "/c10/"+rp.Tok, "c10.test", hdr, body, false)); err != nil {
-		return outcome{Status: -1, Closed: true}
-	}
-	resp, err := c.Read(method, wait)
-	if err != nil {
-		return outcome{Status: -1, Closed: true}
-	}
-	return outcome{Status: resp.Status, Got: true}
-}
-
-func closeConn(c net.Conn, rst bool) {
-	if tc, ok := c.(*net.TCPConn); ok && rst {
-		_ = tc.SetLinger(0)
-	}
-	_ = c.Close()
-}
-
-// boltReq builds the bolt request frame of a plan.
-func boltReq(id uint32, rp *ReqPlan) []byte {
-	b := make([]byte, rp.BodyLen)
-	for i := range b {
-		b[i] = 'a' + byte(i%26)
-	}
-	if rp.Oneway {
-		return mesh.XOneway("bolt", id, rp.Tok, b)
-	}
-	var extra []codec.KV
-	if rp.TryMs > 0 {
-		extra = append(extra, codec.KV{K: []byte(types.HeaderTryTimeout), V: []byte(fmt.Sprint(rp.TryMs))})
-	}
-	return mesh.XRequest("bolt", id, rp.Tok, b, uint32(rp.TimeoutMs), extra...)
-}
-
-func boltStatus(frame []byte) int {
-	x, err := mesh.ParseX(frame)
-	if err != nil || !x.Response {
-		return -1
-	}
-	return int(x.Status)
-}
-
-const clientWait = 30 * time.Second // generous: a miss is inconclusive, never a verdict
-
-func overflowStatus(proto string) int {
-	if proto == "Http1" {
-		return api.UpstreamOverFlowCode
-	}
-	return 4 // bolt ResponseStatusServerThreadpoolBusy
-}
-
-func okStatus(proto string) int {
-	if proto == "Http1" {
-		return 200
-	}
-	return 0
+	return ""
 }
